@@ -342,7 +342,9 @@ def jobs(prop, tier):
         {"name": "exh", "mode": "I", "shards": 16},
         {"name": "rand", "mode": "I", "shards": 16},
         {"name": "fuzz", "mode": "I", "shards": 2 if tier == "quick" else 8},
-    ]
+        # the same oracles on the compiled propagators (direct calls of the jitted functions)
+        {"name": "rand-J", "mode": "J", "shards": 2 if tier == "quick" else 8},
+    ] + ([{"name": "exh-J", "mode": "J", "shards": 8}] if tier != "quick" else [])
 
 
 def run_fuzz(prop, shard, seed, tier):
@@ -407,7 +409,7 @@ def run(prop, job, shard, nshards, seed, tier):
     check = CHECKS[prop]
     rec = Recorder()
     level = SCOPE_LEVEL[tier]
-    if job["name"] == "exh":
+    if job["name"] in ("exh", "exh-J"):
         k = 0
         nontrivial = 0
         passes = [False, True] if prop == "C06" else [False]
@@ -431,14 +433,14 @@ def run(prop, job, shard, nshards, seed, tier):
                         if not any(f.get("_key") == repr(key) for f in rec.failures):
                             rec.failures.append({"case": case, "msg": v.msg, "_key": repr(key)})
         res = rec.result()
-        res["exhaustive_nontrivial"] = nontrivial
+        res["exhaustive_nontrivial"] = nontrivial if job["name"] == "exh" else 0  # the same cases in both modes: counted once
         res["exhaustive_scope"] = "level %d" % level
         for f in res["failures"]:
             f.pop("_key", None)
         return res
     if job["name"] == "fuzz":
         return run_fuzz(prop, shard, seed, tier)
-    if job["name"] == "rand":
+    if job["name"] in ("rand", "rand-J"):
         strat = strategy(prop, tier)
 
         def chk(case):
